@@ -13,13 +13,22 @@ $(COQMF): coq/_CoqProject
 coq/_CoqProject: $(wildcard coq/theories/*.v)
 	cd coq && (echo "-Q theories YG"; ls theories/*.v) > _CoqProject
 
-extract: coq/extract/model_eval
+extract: coq/extract/model_eval coq/extract/model_eval_pure
 
-coq/extract/model_eval: coq/extract/Extract.v coq/extract/driver.ml $(wildcard coq/theories/*.v)
-	cd coq/extract && rm -f model.ml model.mli && timeout 600 coqc -Q ../theories YG Extract.v > /dev/null && \
-	  ocamlfind ocamlopt -O3 -w -a model.mli model.ml driver.ml -o model_eval 2>/dev/null || \
-	  ocamlfind ocamlopt -w -a model.mli model.ml driver.ml -o model_eval
+# model_eval: nat extracted to OCaml int (ExtrOcamlNatInt) - the oracle of the quick checks
+coq/extract/model_eval: coq/extract/ExtractInt.v coq/extract/driver.ml coq/extract/natconv_int.ml $(wildcard coq/theories/*.v)
+	rm -rf coq/extract/int && mkdir -p coq/extract/int && cp coq/extract/ExtractInt.v coq/extract/driver.ml coq/extract/int/ && cp coq/extract/natconv_int.ml coq/extract/int/natconv.ml
+	cd coq/extract/int && timeout 600 coqc -Q ../../theories YG ExtractInt.v > /dev/null && \
+	  (ocamlfind ocamlopt -O3 -w -a model.mli model.ml natconv.ml driver.ml -o ../model_eval 2>/dev/null || \
+	   ocamlfind ocamlopt -w -a model.mli model.ml natconv.ml driver.ml -o ../model_eval)
+
+# model_eval_pure: ExtrOcamlBasic only (nat, positive, Z stay the extracted inductive types) - cross-check of the fast build
+coq/extract/model_eval_pure: coq/extract/Extract.v coq/extract/driver.ml coq/extract/natconv_pure.ml $(wildcard coq/theories/*.v)
+	rm -rf coq/extract/pure && mkdir -p coq/extract/pure && cp coq/extract/Extract.v coq/extract/driver.ml coq/extract/pure/ && cp coq/extract/natconv_pure.ml coq/extract/pure/natconv.ml
+	cd coq/extract/pure && timeout 600 coqc -Q ../../theories YG Extract.v > /dev/null && \
+	  (ocamlfind ocamlopt -O3 -w -a model.mli model.ml natconv.ml driver.ml -o ../model_eval_pure 2>/dev/null || \
+	   ocamlfind ocamlopt -w -a model.mli model.ml natconv.ml driver.ml -o ../model_eval_pure)
 
 clean:
-	rm -rf coq/theories/*.vo coq/theories/*.vok coq/theories/*.vos coq/theories/*.glob coq/theories/.*.aux coq/Makefile.coq* coq/.Makefile.coq.d coq/extract/model* coq/extract/*.cm* coq/extract/*.o coq/extract/*.vo* coq/extract/*.glob .work
+	rm -rf coq/theories/*.vo coq/theories/*.vok coq/theories/*.vos coq/theories/*.glob coq/theories/.*.aux coq/Makefile.coq* coq/.Makefile.coq.d coq/extract/model* coq/extract/int coq/extract/pure coq/extract/*.cm* coq/extract/*.o coq/extract/*.vo* coq/extract/*.glob .work
 SHELL = /bin/bash
